@@ -159,16 +159,24 @@ func (c *replacerCompiler) compileFile(file *pgo.File) FileReplacer {
 
 // Replace replaces a file using the provided Match data.
 func (r FileReplacer) Replace(d data.Data, cl Changelog) (*ast.File, error) {
+	f, _, err := r.replace(d, cl)
+	return f, err
+}
+
+// replace is Replace that also reports whether anything was done to the
+// file. The pattern of a change can occur in a file only in places where its
+// replacement cannot stand (a call that is replaced with something other
+// than a call, found only as the call of a defer statement). Such a change
+// does not apply to the file: the file is returned as it was.
+func (r FileReplacer) replace(d data.Data, cl Changelog) (_ *ast.File, applied bool, _ error) {
 	var fd fileMatchData
 	if !data.Lookup(d, fileMatchKey, &fd) {
-		return nil, errors.New("no file match data found")
+		return nil, false, errors.New("no file match data found")
 	}
 
 	file := fd.File
-	if r.Package != "" {
-		file.Name.Name = r.Package
-	}
 
+	var placed int
 	for _, m := range fd.Matches {
 		v := reflect.Indirect(reflect.ValueOf(m.parent)).FieldByName(m.name)
 		if !v.IsValid() {
@@ -182,7 +190,7 @@ func (r FileReplacer) Replace(d data.Data, cl Changelog) (*ast.File, error) {
 
 		give, err := r.NodeReplacer.Replace(m.data, cl, m.region.Pos)
 		if err != nil {
-			return nil, err
+			return nil, false, err
 		}
 
 		// If the generated value isn't assignable to the target, the match
@@ -196,7 +204,16 @@ func (r FileReplacer) Replace(d data.Data, cl Changelog) (*ast.File, error) {
 				}
 			}
 			v.Set(give)
+			placed++
 		}
+	}
+
+	if len(fd.Matches) > 0 && placed == 0 {
+		return file, false, nil
+	}
+
+	if r.Package != "" {
+		file.Name.Name = r.Package
 	}
 
 	// Imports are added only now: adding the first import of a file
@@ -204,11 +221,11 @@ func (r FileReplacer) Replace(d data.Data, cl Changelog) (*ast.File, error) {
 	// invalidate the indexes recorded for matched top-level declarations.
 	newImports, err := r.Imports.Replace(d, cl, file)
 	if err != nil {
-		return nil, err
+		return nil, false, err
 	}
 
 	err = r.Imports.Cleanup(d, file, newImports)
-	return file, err
+	return file, true, err
 }
 
 type _fileMatchKey struct{}
